@@ -5,6 +5,7 @@ package main
 
 import (
 	"fmt"
+	"os"
 	"strconv"
 	"go/token"
 	"go/types"
@@ -2744,4 +2745,639 @@ func i2Small(v ssa.Value, at *ssa.BasicBlock, depth int) string {
 		return "dominated by the int32 range test"
 	}
 	return ""
+}
+
+// ---------- J5: the Go-syntax quoting fast path is confined to bytes where Go and JSON agree ----------
+
+func init() {
+	register("J5", "JSON strings are quoted by JSON's rules: where json.encode quotes a string with Go's strconv quoting (a fast path), the guarding predicate - evaluated here for each of the 256 byte values - admits only bytes 0x20..0x7e, for which Go's and JSON's escapes coincide (Go writes DEL as \\x7f and non-ASCII as \\u/\\x forms that JSON does not have); json.decode unquotes escapes only with encoding/json, never with strconv.Unquote (Go's escape syntax is a superset)", 1, ruleJ5)
+	claim("C18", "J5")
+}
+
+// evalBytePredicate abstractly executes a func(string) bool for the one-byte
+// string {b}: it follows the SSA from the entry, taking s[i] = b, len(s) = 1, and
+// resolving comparisons on constants; returns (result, ok).
+func evalBytePredicate(fn *ssa.Function, b byte) (bool, bool) {
+	if len(fn.Params) != 1 || len(fn.Blocks) == 0 {
+		return false, false
+	}
+	env := map[ssa.Value]int64{}
+	known := map[ssa.Value]bool{}
+	var eval func(v ssa.Value) (int64, bool)
+	eval = func(v ssa.Value) (int64, bool) {
+		if k, ok := constInt(v); ok {
+			return k, true
+		}
+		if c, ok := v.(*ssa.Const); ok && c.Value != nil && c.Value.Kind().String() == "Bool" {
+			if c.Value.String() == "true" {
+				return 1, true
+			}
+			return 0, true
+		}
+		if known[v] {
+			return env[v], true
+		}
+		return 0, false
+	}
+	set := func(v ssa.Value, x int64) { env[v] = x; known[v] = true }
+	rangeCount := map[*ssa.Range]int{}
+	nextState := map[*ssa.Next]int{}
+	blk := fn.Blocks[0]
+	var prev *ssa.BasicBlock
+	for steps := 0; steps < 400; steps++ {
+		for _, in := range blk.Instrs {
+			switch x := in.(type) {
+			case *ssa.Phi:
+				for i, p := range blk.Preds {
+					if p == prev {
+						if v, ok := eval(x.Edges[i]); ok {
+							set(x, v)
+						} else {
+							return false, false
+						}
+					}
+				}
+			case *ssa.Call:
+				if bi, ok := x.Call.Value.(*ssa.Builtin); ok && bi.Name() == "len" && len(x.Call.Args) == 1 && x.Call.Args[0] == ssa.Value(fn.Params[0]) {
+					set(x, 1)
+				} else {
+					return false, false
+				}
+			case *ssa.Lookup:
+				if x.X == ssa.Value(fn.Params[0]) {
+					i, ok := eval(x.Index)
+					if !ok || i != 0 {
+						return false, false
+					}
+					set(x, int64(b))
+				} else {
+					return false, false
+				}
+			case *ssa.Index:
+				if x.X == ssa.Value(fn.Params[0]) {
+					i, ok := eval(x.Index)
+					if !ok || i != 0 {
+						return false, false
+					}
+					set(x, int64(b))
+				} else {
+					return false, false
+				}
+			case *ssa.Range:
+				if x.X != ssa.Value(fn.Params[0]) {
+					return false, false
+				}
+				rangeCount[x] = 0
+			case *ssa.Next:
+				rg, ok := x.Iter.(*ssa.Range)
+				if !ok {
+					return false, false
+				}
+				rangeCount[rg]++
+				nextState[x] = rangeCount[rg]
+			case *ssa.Extract:
+				nx, ok := x.Tuple.(*ssa.Next)
+				if !ok {
+					return false, false
+				}
+				first := nextState[nx] == 1
+				switch x.Index {
+				case 0:
+					if first {
+						set(x, 1)
+					} else {
+						set(x, 0)
+					}
+				case 1:
+					set(x, 0)
+				case 2:
+					r := int64(b)
+					if b >= 0x80 {
+						r = 0xFFFD // a lone byte >= 0x80 is not valid UTF-8
+					}
+					set(x, r)
+				}
+			case *ssa.Convert:
+				if v, ok := eval(x.X); ok {
+					set(x, v)
+				}
+			case *ssa.BinOp:
+				a, ok1 := eval(x.X)
+				c, ok2 := eval(x.Y)
+				if !ok1 || !ok2 {
+					continue
+				}
+				var r int64
+				bi := func(t bool) int64 {
+					if t {
+						return 1
+					}
+					return 0
+				}
+				switch x.Op {
+				case token.ADD:
+					r = a + c
+				case token.SUB:
+					r = a - c
+				case token.LSS:
+					r = bi(a < c)
+				case token.GTR:
+					r = bi(a > c)
+				case token.LEQ:
+					r = bi(a <= c)
+				case token.GEQ:
+					r = bi(a >= c)
+				case token.EQL:
+					r = bi(a == c)
+				case token.NEQ:
+					r = bi(a != c)
+				case token.AND:
+					r = a & c
+				case token.OR:
+					r = a | c
+				default:
+					continue
+				}
+				set(x, r)
+			case *ssa.UnOp:
+				if x.Op == token.NOT {
+					if v, ok := eval(x.X); ok {
+						set(x, 1-v)
+					}
+				}
+			case *ssa.If:
+				v, ok := eval(x.Cond)
+				if !ok {
+					return false, false
+				}
+				prev = blk
+				if v != 0 {
+					blk = blk.Succs[0]
+				} else {
+					blk = blk.Succs[1]
+				}
+			case *ssa.Jump:
+				prev = blk
+				blk = blk.Succs[0]
+			case *ssa.Return:
+				if len(x.Results) != 1 {
+					return false, false
+				}
+				v, ok := eval(x.Results[0])
+				return v != 0, ok
+			case *ssa.DebugRef:
+			default:
+				if os.Getenv("VERIF_DEBUG") != "" {
+					fmt.Fprintf(os.Stderr, "evalBytePredicate: unsupported %T %s\n", in, in)
+				}
+				return false, false
+			}
+		}
+	}
+	return false, false
+}
+
+func ruleJ5(c *Ctx) {
+	n := 0
+	for _, fn := range c.P.Funcs {
+		if relPkg(fnPkgPath(fn)) != "lib/json" {
+			continue
+		}
+		top := outermost(fn)
+		eachInstr(fn, func(in ssa.Instruction) {
+			call, ok := in.(*ssa.Call)
+			if !ok {
+				return
+			}
+			cal := call.Call.StaticCallee()
+			if cal == nil {
+				return
+			}
+			name := cal.String()
+			switch {
+			case strings.HasPrefix(name, "strconv.AppendQuote") || strings.HasPrefix(name, "strconv.Quote"):
+				n++
+				key := fmt.Sprintf("%s: %s", fnName(fn), name)
+				if top.Name() != "encode" && top.Name() != "encodeIndent" {
+					c.ok(key, c.P.Pos(call.Pos()), "not in the encoder (error message)")
+					return
+				}
+				// the guarding predicate: a dominating call of a func(string) bool on the quoted string
+				var pred *ssa.Function
+				for _, pc := range pathConds(call.Block()) {
+					cond, neg := stripNot(pc.If.Cond)
+					if pcall, ok := cond.(*ssa.Call); ok && pc.Branch != neg {
+						if pf := pcall.Call.StaticCallee(); pf != nil && pf.Blocks != nil && len(pf.Params) == 1 {
+							pred = pf
+						}
+					}
+				}
+				if pred == nil {
+					c.viol(key, c.P.Pos(call.Pos()), "json.encode quotes with Go's strconv quoting without a guarding predicate on the string's bytes: Go's escapes (\\x7f, \\a, \\v, \\U...) are not JSON")
+					return
+				}
+				var bad []string
+				for b := 0; b < 256; b++ {
+					acc, ok := evalBytePredicate(pred, byte(b))
+					if !ok {
+						c.viol(key, c.P.Pos(call.Pos()), fmt.Sprintf("cannot evaluate the guarding predicate %s for byte 0x%02x: the set of strings sent to Go-syntax quoting is undetermined", fnName(pred), b))
+						return
+					}
+					if acc && !(b >= 0x20 && b <= 0x7e) {
+						bad = append(bad, fmt.Sprintf("0x%02x", b))
+					}
+				}
+				if len(bad) > 0 {
+					if len(bad) > 6 {
+						bad = append(bad[:6], "...")
+					}
+					c.viol(key, c.P.Pos(call.Pos()), fmt.Sprintf("the predicate %s admits byte(s) %s to the Go-syntax quoting fast path, but for them strconv's output is not valid JSON (e.g. DEL is written \\x7f)", fnName(pred), strings.Join(bad, " ")))
+				} else {
+					c.ok(key, c.P.Pos(call.Pos()), fmt.Sprintf("guarded by %s, which admits only bytes 0x20..0x7e (evaluated for all 256 byte values)", fnName(pred)))
+				}
+			case strings.HasPrefix(name, "strconv.Unquote"):
+				n++
+				key := fmt.Sprintf("%s: %s", fnName(fn), name)
+				if top.Name() == "decode" {
+					c.viol(key, c.P.Pos(call.Pos()), "json.decode unquotes with strconv.Unquote: Go's escape syntax (\\x41, \\a, \\101, \\U0001F600) is a superset of JSON's, so invalid documents are accepted")
+				} else {
+					c.ok(key, c.P.Pos(call.Pos()), "not in the decoder")
+				}
+			}
+		})
+	}
+	if n == 0 {
+		c.anchorFail("no strconv quoting call found in lib/json")
+	}
+}
+
+// ---------- V11: the compiler folds concatenations only ----------
+
+func init() {
+	register("V11", "no arithmetic at compile time: package compile calls no arithmetic method of math/big (Add, Sub, Mul, Quo, Neg, Lsh, ...) and performs no floating-point arithmetic; it folds only concatenations of string, bytes, list and tuple literals (associative and type-closed), so x + 1 + 1 is evaluated left to right at run time - folding numeric literals would re-associate chains with a float or host-defined left operand", 1, ruleV11)
+	claim("C01", "V11")
+}
+
+func ruleV11(c *Ctx) {
+	allowed := map[string]bool{"SetString": true, "String": true, "Text": true, "Append": true, "IsInt64": true, "Int64": true, "IsUint64": true, "Uint64": true, "Sign": true, "Cmp": true, "BitLen": true, "Set": true, "SetInt64": true, "SetUint64": true}
+	n := 0
+	bad := 0
+	for _, fn := range c.P.Funcs {
+		if relPkg(fnPkgPath(fn)) != "internal/compile" {
+			continue
+		}
+		eachInstr(fn, func(in ssa.Instruction) {
+			switch x := in.(type) {
+			case ssa.CallInstruction:
+				cal := x.Common().StaticCallee()
+				if cal == nil || cal.Signature.Recv() == nil {
+					return
+				}
+				pp, tn := namedOf(cal.Signature.Recv().Type())
+				if pp != "math/big" {
+					return
+				}
+				n++
+				key := fmt.Sprintf("%s: big.%s.%s", fnName(fn), tn, cal.Name())
+				if allowed[cal.Name()] {
+					c.ok(key, c.P.Pos(in.Pos()), "conversion or inspection of a constant, no arithmetic")
+				} else {
+					bad++
+					c.viol(key, c.P.Pos(in.Pos()), "the compiler computes with big numbers at compile time: folding numeric literals changes the order in which a chain of operators is evaluated (float addition is not associative; a host type may define + itself)")
+				}
+			case *ssa.BinOp:
+				bt, ok := x.Type().Underlying().(*types.Basic)
+				if !ok || bt.Info()&types.IsFloat == 0 {
+					return
+				}
+				switch x.Op {
+				case token.ADD, token.SUB, token.MUL, token.QUO:
+					n++
+					bad++
+					c.viol(fmt.Sprintf("%s: float %s", fnName(fn), x.Op), c.P.Pos(x.Pos()), "floating-point arithmetic in the compiler: constant folding of floats is not value-preserving for chains (not associative)")
+				}
+			}
+		})
+	}
+	if bad == 0 {
+		c.ok("internal/compile: no numeric folding", "", fmt.Sprintf("%d math/big call(s), all conversions; no float arithmetic", n))
+	}
+}
+
+// ---------- V12: constructor instructions create new objects ----------
+
+func init() {
+	register("V12", "every execution of a def, lambda, list or dict display yields a new object: wherever the interpreter pushes a value whose static type is *Function, *List, *Dict or *Set onto the operand stack (MAKEFUNC, MAKELIST, MAKEDICT), the object is allocated in that very step (a composite literal, new, or a constructor that returns a fresh object) - never fetched from a cache, because functions and mutable collections are compared by identity and collections must not be shared between executions", 3, ruleV12)
+	claim("C01", "V12")
+}
+
+func ruleV12(c *Ctx) {
+	fn := c.P.Func("starlark", "Function.CallInternal")
+	if fn == nil {
+		c.anchorFail("(*starlark.Function).CallInternal not found")
+		return
+	}
+	fc := computeReturnsFresh(c.P)
+	n := 0
+	ord := map[string]int{}
+	eachInstr(fn, func(in ssa.Instruction) {
+		st, ok := in.(*ssa.Store)
+		if !ok || in.Parent() != fn {
+			return
+		}
+		ia, ok := st.Addr.(*ssa.IndexAddr)
+		if !ok {
+			return
+		}
+		sl, ok := ia.X.Type().Underlying().(*types.Slice)
+		if !ok || !isNamed(sl.Elem(), "starlark", "Value") {
+			return
+		}
+		mi, ok := st.Val.(*ssa.MakeInterface)
+		if !ok {
+			return
+		}
+		pt, ok := mi.X.Type().(*types.Pointer)
+		if !ok {
+			return
+		}
+		_, tn := namedOf(pt.Elem())
+		switch tn {
+		case "Function", "List", "Dict", "Set":
+		default:
+			return
+		}
+		if pk, _ := namedOf(pt.Elem()); !strings.HasSuffix(pk, "starlark") {
+			return
+		}
+		n++
+		base := fmt.Sprintf("(*starlark.Function).CallInternal: push *%s", tn)
+		ord[base]++
+		key := base
+		if ord[base] > 1 {
+			key = fmt.Sprintf("%s #%d", base, ord[base])
+		}
+		tr := traceAddr(mi.X)
+		fresh := len(tr.fields) == 0 && len(tr.bases) > 0
+		for _, b := range tr.bases {
+			if b.throughPtr || !isFreshValue(fc, b.v) {
+				fresh = false
+			}
+		}
+		if fresh {
+			c.ok(key, c.P.Pos(st.Pos()), "allocated in this step")
+		} else {
+			c.viol(key, c.P.Pos(st.Pos()), fmt.Sprintf("the *%s pushed on the operand stack is not allocated here (it comes from %s): two executions of the same def/lambda/display could yield the same object, which identity comparison, hashing and mutation observe", tn, describeBases(resolveBases(fn, tr.bases))))
+		}
+	})
+	if n < 3 {
+		c.anchorFail("only %d pushes of *Function/*List/*Dict found in CallInternal", n)
+	}
+}
+
+// ---------- O13: parenthesis stripping is complete ----------
+
+func init() {
+	register("O13", "redundant parentheses are stripped completely: a helper that takes an expression, tests it for *syntax.ParenExpr and returns an expression (unparen) returns only values that are results of its own recursive call or that failed the ParenExpr test on the way to the return; stripping one level only would send ((x)) += 1, which the parser and resolver accept, to the compiler's panic(lhs)", 1, ruleO13)
+	claim("C09", "O13")
+	claim("C02", "O13")
+}
+
+func ruleO13(c *Ctx) {
+	n := 0
+	isExpr := func(t types.Type) bool { return isNamed(t, "syntax", "Expr") }
+	for _, fn := range c.P.Funcs {
+		if !isProdPkg(fnPkgPath(fn)) || fn.Signature.Recv() != nil {
+			continue
+		}
+		ps, rs := fn.Signature.Params(), fn.Signature.Results()
+		if ps.Len() != 1 || rs.Len() != 1 || !isExpr(ps.At(0).Type()) || !isExpr(rs.At(0).Type()) {
+			continue
+		}
+		var tests []*ssa.TypeAssert
+		eachInstr(fn, func(in ssa.Instruction) {
+			if ta, ok := in.(*ssa.TypeAssert); ok && ta.CommaOk && in.Parent() == fn {
+				if pt, ok := ta.AssertedType.(*types.Pointer); ok && isNamed(pt.Elem(), "syntax", "ParenExpr") {
+					tests = append(tests, ta)
+				}
+			}
+		})
+		if len(tests) == 0 {
+			continue
+		}
+		n++
+		key := fnName(fn)
+		bad := ""
+		notParenAt := func(v ssa.Value, b *ssa.BasicBlock) bool {
+			for _, pc := range pathConds(b) {
+				cond, neg := stripNot(pc.If.Cond)
+				ex, ok := cond.(*ssa.Extract)
+				if !ok || ex.Index != 1 {
+					continue
+				}
+				ta, ok := ex.Tuple.(*ssa.TypeAssert)
+				if !ok || ta.X != v {
+					continue
+				}
+				isParen := false
+				for _, t := range tests {
+					if t == ta {
+						isParen = true
+					}
+				}
+				if isParen && pc.Branch == neg { // failure edge of the test
+					return true
+				}
+			}
+			return false
+		}
+		var okVal func(v ssa.Value, b *ssa.BasicBlock, depth int) bool
+		okVal = func(v ssa.Value, b *ssa.BasicBlock, depth int) bool {
+			if depth > 5 {
+				return false
+			}
+			if notParenAt(v, b) {
+				return true
+			}
+			switch x := v.(type) {
+			case *ssa.Call:
+				if cal := x.Call.StaticCallee(); cal == fn {
+					return true
+				}
+			case *ssa.Phi:
+				for i, e := range x.Edges {
+					if !okVal(e, x.Block().Preds[i], depth+1) {
+						return false
+					}
+				}
+				return true
+			case *ssa.MakeInterface:
+				if pt, ok := x.X.Type().(*types.Pointer); ok && isNamed(pt.Elem(), "syntax", "ParenExpr") {
+					return false
+				}
+				return true // a concrete node of another type
+			}
+			return false
+		}
+		for _, b := range fn.Blocks {
+			if len(b.Instrs) == 0 {
+				continue
+			}
+			ret, ok := b.Instrs[len(b.Instrs)-1].(*ssa.Return)
+			if !ok || len(ret.Results) != 1 {
+				continue
+			}
+			if !okVal(ret.Results[0], b, 0) {
+				bad = c.P.Pos(ret.Pos())
+			}
+		}
+		if bad != "" {
+			c.viol(key, bad, key+" can return an expression that was not tested (or tested positive) for *ParenExpr: nested redundant parentheses survive, and callers that switch on the node type reach their default: panic")
+		} else {
+			c.ok(key, c.P.Pos(fn.Pos()), "every returned expression failed the ParenExpr test or comes from the recursive call")
+		}
+	}
+	if n == 0 {
+		c.anchorFail("no parenthesis-stripping helper found")
+	}
+}
+
+// ---------- F8: Freeze descends unconditionally ----------
+
+func init() {
+	register("F8", "freezing does not pick and choose: inside Freeze methods and their freeze helpers, the Freeze call on a contained value is not conditional on a property of that value (its dynamic type, a predicate on it) - only on its being non-nil, on the container's own frozen flag, or on loop bounds; a 'skip stateless leaves' shortcut that lists a type with reachable state (a bound method's receiver) leaves that state mutable", 10, ruleF8)
+	claim("C04", "F8")
+	claim("C05", "F8")
+}
+
+func ruleF8(c *Ctx) {
+	n := 0
+	for _, fn := range c.P.Funcs {
+		if !isProdPkg(fnPkgPath(fn)) {
+			continue
+		}
+		top := outermost(fn)
+		if !(top.Name() == "Freeze" || top.Name() == "freeze") {
+			continue
+		}
+		ord := 0
+		eachInstr(fn, func(in ssa.Instruction) {
+			ci, ok := in.(ssa.CallInstruction)
+			if !ok {
+				return
+			}
+			rv, ok := isFreezeCall(ci)
+			if !ok {
+				return
+			}
+			n++
+			ord++
+			key := fmt.Sprintf("%s: descent #%d", fnName(fn), ord)
+			// the element the receiver stands for
+			elem := map[ssa.Value]bool{}
+			var back func(v ssa.Value, d int)
+			back = func(v ssa.Value, d int) {
+				if d > 6 || elem[v] {
+					return
+				}
+				elem[v] = true
+				switch x := v.(type) {
+				case *ssa.MakeInterface:
+					back(x.X, d+1)
+				case *ssa.ChangeInterface:
+					back(x.X, d+1)
+				case *ssa.ChangeType:
+					back(x.X, d+1)
+				case *ssa.TypeAssert:
+					back(x.X, d+1)
+				case *ssa.Extract:
+					if ta, ok := x.Tuple.(*ssa.TypeAssert); ok {
+						back(ta.X, d+1)
+					}
+				case *ssa.Phi:
+					for _, e := range x.Edges {
+						back(e, d+1)
+					}
+				}
+			}
+			back(rv, 0)
+			dependsOnElem := func(cond ssa.Value) string {
+				seen := map[ssa.Value]bool{}
+				why := ""
+				var walk func(v ssa.Value, d int)
+				walk = func(v ssa.Value, d int) {
+					if d > 6 || seen[v] || why != "" {
+						return
+					}
+					seen[v] = true
+					switch x := v.(type) {
+					case *ssa.UnOp:
+						if x.Op == token.NOT {
+							walk(x.X, d+1)
+						}
+					case *ssa.BinOp:
+						if _, _, isNil := nilTest(x); isNil {
+							return
+						}
+						walk(x.X, d+1)
+						walk(x.Y, d+1)
+					case *ssa.Extract:
+						if ta, ok := x.Tuple.(*ssa.TypeAssert); ok {
+							if elem[ta.X] {
+								// a test for the very interface/type whose Freeze is then called is how a
+								// typed descent is written (if f, ok := v.(Freezer)); any other type test selects
+								if x.Index == 1 && !elem[ssa.Value(ta)] && !extractOfUsed(ta, elem) {
+									why = "a test of the element's dynamic type"
+								}
+							}
+							return
+						}
+						walk(x.Tuple, d+1)
+					case *ssa.Call:
+						for _, a := range x.Call.Args {
+							if elem[a] {
+								why = "the result of " + calleeName(x) + " applied to the element"
+								return
+							}
+						}
+						if x.Call.IsInvoke() && elem[x.Call.Value] {
+							why = "the element's " + x.Call.Method.Name() + "() result"
+						}
+					case *ssa.Phi:
+						for _, e := range x.Edges {
+							walk(e, d+1)
+						}
+					}
+				}
+				walk(cond, 0)
+				return why
+			}
+			bad := ""
+			for _, pc := range pathConds(in.Block()) {
+				if w := dependsOnElem(pc.If.Cond); w != "" {
+					bad = w
+				}
+			}
+			if bad != "" {
+				c.viol(key, c.P.Pos(in.Pos()), "the Freeze of a contained value is conditional on "+bad+": values for which the condition fails are skipped, and whatever they reach stays mutable after the container is frozen")
+			} else {
+				c.ok(key, c.P.Pos(in.Pos()), "unconditional (up to nil tests, the container's flag and loop bounds)")
+			}
+		})
+	}
+	if n < 10 {
+		c.anchorFail("only %d Freeze descents found", n)
+	}
+}
+
+// extractOfUsed: the value produced by the comma-ok assertion is itself (one of) the receiver values.
+func extractOfUsed(ta *ssa.TypeAssert, elem map[ssa.Value]bool) bool {
+	if refs := ta.Referrers(); refs != nil {
+		for _, r := range *refs {
+			if ex, ok := r.(*ssa.Extract); ok && ex.Index == 0 && elem[ex] {
+				return true
+			}
+		}
+	}
+	return false
 }
